@@ -126,6 +126,8 @@ func emitCase(out *gal.Out, mode string, fd *FileDef, ei int, res *pkgResult, pl
 	outcome := 0
 	var obs *enumOut
 	switch {
+	case !res.GenOK && res.Wrote:
+		outcome, jc.Outcome, jc.GenLog = 5, "generator_error_but_file_written", res.GenLog
 	case !res.GenOK:
 		outcome, jc.Outcome, jc.GenLog = 1, "generator_error", res.GenLog
 	case !res.BuildOK:
